@@ -7,7 +7,7 @@ from engine import Op, set_mode
 
 PROP = "C14"
 QUICK_BOOST = 2
-LEAN_MODULES = ["IsoDT.Props.C14", "IsoDT.Props.C14c", "IsoDT.Props.C14mm"]
+LEAN_MODULES = ["IsoDT.Props.C14", "IsoDT.Props.C14b", "IsoDT.Props.C14c", "IsoDT.Props.C14mm"]
 RULE = ("recurrences as in C12 x exact shift durations (either operand order, and subtraction); pairs differing in "
         "exactly one component, pairs spelling the same anchors and interval differently (other zone, other "
         "representation, other units); parser-producible recurrences for the text round trip; distinct by "
@@ -26,6 +26,12 @@ class Shift(Op):
             rec, info = R.gen_rec(rng, m, max_reps=20)
             d = T.gen_exact_dur(rng, max_days=3000)
             yield (m, rec, tuple(sorted(info.items())), d)
+
+    sibling_rate = 0.3
+
+    def sibling(self, a, rng):
+        m, rec, info, d = a
+        return [(m2, r2, tuple(sorted(i2.items())), d) for m2, r2, i2 in R.mode_siblings(m, rec, info, limit=1)]
 
     def line(self, a):
         return "rshift %s %s %s" % (a[0], R.rec_line(a[1]), T.dur_str(a[3]))
